@@ -391,6 +391,9 @@ func (r *Repository) ReconcileLocalRSLWithRemote(ctx context.Context, remoteName
 
 	// Apply local only entries on top of the new local RSL
 	// localOnlyEntries is in reverse order
+	// A reapplied entry gets a new ID, track it so that reapplied annotations
+	// refer to the reapplied entries rather than the ones left behind
+	reappliedEntryIDs := map[string]githash.Hash{}
 	for i := len(localOnlyEntries) - 1; i >= 0; i-- {
 		slog.Debug(fmt.Sprintf("Reapplying entry '%s'...", localOnlyEntries[i].GetID().String()))
 
@@ -404,10 +407,23 @@ func (r *Repository) ReconcileLocalRSLWithRemote(ctx context.Context, remoteName
 				return fmt.Errorf("unable to reapply reference entry '%s': %w", entry.ID.String(), err)
 			}
 		case *rsl.AnnotationEntry:
-			if err := rsl.NewAnnotationEntry(entry.RSLEntryIDs, entry.Skip, entry.Message).Commit(r.r, sign); err != nil {
+			entryIDs := make([]githash.Hash, 0, len(entry.RSLEntryIDs))
+			for _, entryID := range entry.RSLEntryIDs {
+				if reappliedEntryID, has := reappliedEntryIDs[entryID.String()]; has {
+					entryID = reappliedEntryID
+				}
+				entryIDs = append(entryIDs, entryID)
+			}
+			if err := rsl.NewAnnotationEntry(entryIDs, entry.Skip, entry.Message).Commit(r.r, sign); err != nil {
 				return fmt.Errorf("unable to reapply annotation entry '%s': %w", entry.ID.String(), err)
 			}
 		}
+
+		reappliedEntryID, err := r.r.GetReference(rsl.Ref)
+		if err != nil {
+			return fmt.Errorf("unable to get current tip of the RSL: %w", err)
+		}
+		reappliedEntryIDs[localOnlyEntries[i].GetID().String()] = reappliedEntryID
 
 		if slog.Default().Enabled(ctx, slog.LevelDebug) {
 			currentTip, err := r.r.GetReference(rsl.Ref)
